@@ -133,6 +133,12 @@ class Ref:
         self.id_pack = id_pack
 
 
+class RemoteRef:
+    """a request argument that is a reference to an object of the sender (the reference peer's own object)"""
+    def __init__(self, id_pack):
+        self.id_pack = id_pack
+
+
 def to_text_ordered(v):
     """valtext.to_text for values that carry refcodec.FSet (frozenset in wire order)"""
     out = []
@@ -739,7 +745,7 @@ def run_client_conversation(seed, idx):
         return got
 
     script = ["ping", "pingv", "attr", "attr", "extra", "add", "echo", "call", "fail", "stop", "missing", "big", "del",
-              "kwargs", "custom", "setdel", "strrepr", "hashcmp", "dir", "pickle", "buffiter", "oldslice", "with", "isinstance"]
+              "kwargs", "custom", "async", "foreign", "setdel", "strrepr", "hashcmp", "dir", "pickle", "buffiter", "oldslice", "with", "isinstance"]
     r.shuffle(script)
     if idx % FULL_EVERY != 0:              # every FULL_EVERY-th conversation runs the whole script: all 20 handlers
         script = script[:r.range(6, len(script))]
@@ -788,6 +794,37 @@ def run_client_conversation(seed, idx):
             b, cc = r.range(-5, 500), conv_value(r)
             step("call kw(1, c=, b=)", lambda: root.kw(1, c=cc, b=b), expect=((1, b, cc),))
             step("callattr kw(2, b=)", lambda: type(root).kw(root, 2, b=b), expect=((2, b, 0),))
+        elif op == "async":
+            b, cc = r.range(-5, 500), conv_value(r)
+            step("async_ kw(1, b=)", lambda: rpyc.async_(root.kw)(1, b=b).value, expect=((1, b, 0),))
+            step("timed kw(2, c=)", lambda: rpyc.timed(root.kw, 5)(2, c=cc).value, expect=((2, 0, cc),))
+        elif op == "foreign":
+            # a proxy that belongs to ANOTHER connection is, for this one, an object like any other: REMOTE_REF
+            class Peer2(refcodec.RefPeer):
+                ROOT = ("refpeer2.Root", 910001, 1)
+            peer2, st2, seen2 = Peer2(), make_loop_stream(), [0]
+
+            def pump2():
+                out = bytes(st2.out[seen2[0]:])
+                seen2[0] = len(st2.out)
+                if out:
+                    st2.inbox += peer2.feed(out)
+            st2.pump = pump2
+            conn2 = rpyc.VoidService()._connect(channel.Channel(st2, True), {})
+            other = step("second connection's root", lambda: conn2.root)
+            if other is not None:
+                before = len(peer.remote_seen)
+                res = step("callattr echo(foreign proxy, 5)", lambda: root.echo(other, 5))
+                if res is not None and not (type(res) is tuple and len(res) == 2 and res[0] is other and res[1] == 5):
+                    problems.append("echo(foreign proxy): the object did not come back as itself: %r" % (type(res),))
+                if peer.remote_seen[before:] != [Peer2.ROOT]:
+                    problems.append("echo(foreign proxy): the peer received %r, published: one LABEL_REMOTE_REF carrying the "
+                                    "proxy's id_pack %r" % (peer.remote_seen[before:], Peer2.ROOT))
+            other = res = None
+            try:
+                conn2.close()
+            except Exception:  # noqa
+                pass
         elif op == "custom":
             def chk(ex):
                 if getattr(ex, "code", None) != 7:
@@ -922,6 +959,9 @@ def make_service():
         def exposed_kw(self, a, b=0, c=0):
             return (a, b, c)
 
+        def exposed_apply(self, f, x):
+            return f(x)
+
         def exposed_raise_builtin(self, name):
             import builtins
             raise getattr(builtins, name)()
@@ -962,6 +1002,15 @@ def run_server_conversation(seed, idx):
     replies = []
     R = refcodec
 
+    def pump():
+        """deliver what the real side wrote to the peer, and the peer's answers (to requests the real side issues
+        while serving: INSPECT, CALL, DEL) back"""
+        out = bytes(st.out[consumed[0]:])
+        consumed[0] = len(st.out)
+        if out:
+            st.inbox += peer.feed(out)
+    st.pump = pump
+
     def rpc(name, handler, boxed, want=None, want_exc=None, no_reply=False):
         seq, pkt = peer.compose(handler, boxed)
         st.inbox += pkt
@@ -974,9 +1023,13 @@ def run_server_conversation(seed, idx):
             problems.append("%s: serving raised %s%r" % (name, type(ex).__name__, ex.args[:1]))
             ops.append((name, "serve raised"))
             return None
-        back = bytes(st.out[consumed[0]:])
-        consumed[0] = len(st.out)
-        peer.feed(back)
+        pump()
+        if st.inbox:                        # responses to requests the real side issued while serving (DEL, ...)
+            try:
+                while st.inbox and not conn.closed:
+                    conn.serve(0)
+            except Exception as ex:  # noqa
+                problems.append("%s: serving the peer's responses raised %s%r" % (name, type(ex).__name__, ex.args[:1]))
         problems.extend(peer.problems)
         del peer.problems[:]
         msg = peer.pending.pop(seq, None)
@@ -1021,12 +1074,21 @@ def run_server_conversation(seed, idx):
 
     def args_boxed(items):
         """arguments: all by value in one LABEL_VALUE, or item by item under LABEL_TUPLE (both published)"""
-        if not any(isinstance(x, Ref) for x in items) and r.chance(1, 2):
+        if not any(isinstance(x, (Ref, RemoteRef)) or (type(x) is tuple and any(isinstance(y, (Ref, RemoteRef)) for y in x))
+                   for x in items) and r.chance(1, 2):
             return R.box_value(tuple(items))
-        return R.box_tuple(R.box_local(x.id_pack) if isinstance(x, Ref) else R.box_value(x) for x in items)
+        def one(x):
+            if isinstance(x, Ref):
+                return R.box_local(x.id_pack)
+            if isinstance(x, RemoteRef):
+                return R.box_remote(x.id_pack)
+            if type(x) is tuple and any(isinstance(y, (Ref, RemoteRef)) for y in x):
+                return R.box_tuple(one(y) for y in x)
+            return R.box_value(x)
+        return R.box_tuple(one(x) for x in items)
 
     script = ["ping", "ping", "big", "attr", "add", "echo", "callfn", "fail", "stop", "missing", "badref",
-              "kwargs", "custom", "box", "strrepr", "hashcmp", "dir", "pickle", "inspect", "buffiter", "oldslice", "with", "isinstance"]
+              "kwargs", "custom", "remote-arg", "box", "strrepr", "hashcmp", "dir", "pickle", "inspect", "buffiter", "oldslice", "with", "isinstance"]
     r.shuffle(script)
     if idx % FULL_EVERY != 0:              # every FULL_EVERY-th conversation runs the whole script: all 20 handlers
         script = script[:r.range(6, len(script))]
@@ -1089,6 +1151,15 @@ def run_server_conversation(seed, idx):
             if fb is not None and fb[0] == R.LABEL_REMOTE_REF:
                 rpc("call kw(2, b=)", "CALL", args_boxed([Ref(fb[1]), (2,), (("b", b),)]), want=((2, b, 0),))
                 rpc("call kw(3)", "CALL", args_boxed([Ref(fb[1]), (3,)]), want=((3, 0, 0),))       # kwargs omitted
+        elif op == "remote-arg":
+            # the peer passes one of ITS objects: the real `_unbox` builds a proxy (INSPECT round trip), the real service
+            # hands it back (LOCAL_REF for the peer) and calls it (a CALL request from the real side, served by the peer)
+            mine = RemoteRef(peer.TWICE)
+            b = rpc("callattr echo(my object)", "CALLATTR", args_boxed([root, "echo", (mine,), ()]))
+            if b is not None and b != (R.LABEL_TUPLE, ((R.LABEL_LOCAL_REF, peer.TWICE),)):
+                problems.append("echo(my object): reply %r, published: (LABEL_TUPLE, ((LABEL_LOCAL_REF, %r),))" % (b, peer.TWICE))
+            x = r.range(-9, 9)
+            rpc("callattr apply(my object, x)", "CALLATTR", args_boxed([root, "apply", (mine, x), ()]), want=((x, x),))
         elif op == "custom":
             rpc("callattr custom", "CALLATTR", args_boxed([root, "custom", (), ()]),
                 want_exc=("CustomErr", ("m", 3), CustomErr.__module__, ("code", 7)))
